@@ -874,6 +874,8 @@ static void add_to_mapping (mapping_t * m1, mapping_t * m2, int free_flag) {
                   total_mapping_nodes += count;
                 }
               m1->count += count;
+              if (free_flag)
+                free_mapping (m1);
               mapping_too_large ();
             }
 
@@ -956,6 +958,8 @@ static void unique_add_to_mapping (mapping_t * m1, mapping_t * m2, int free_flag
                   total_mapping_nodes += count;
                 }
               m1->count += count;
+              if (free_flag)
+                free_mapping (m1);
               mapping_too_large ();
             }
 
